@@ -7,6 +7,7 @@ package manifest
 import (
 	"bytes"
 	"encoding/json"
+	"errors"
 	"slices"
 )
 
@@ -84,6 +85,9 @@ func (c *WildStrings) UnmarshalJSON(data []byte) error {
 		ss := []string{}
 		if err := json.Unmarshal(data, &ss); err != nil {
 			return err
+		}
+		if ss == nil {
+			return errors.New("null is neither a wildcard nor a list")
 		}
 		c.Value = ss
 	}
